@@ -80,24 +80,25 @@ func shortType(u string) string {
 
 // spec is everything that defines one case apart from the token strings (a pure function of seed and index).
 type spec struct {
-	Stratum       string
-	SubjKind      string
-	SubjVariant   string // "" = drawn by makeToken
-	SubjDeclared  string // dimension name
-	ActorKind     string
-	ActorVariant  string
-	ActorDeclared string // dimension name or "natural"
-	Requested     string
-	Policy        vstore.TEPolicy
-	Client        string
-	Cred          string
-	Verifier      bool
-	NoRefreshVet  bool // the storage trusts the framework's refresh-token look-up instead of re-checking it
-	SigAlg        jose.SignatureAlgorithm
-	Scope         string // "\x00" = absent
-	Audience      []string
-	Resource      []string
-	Follow        string
+	Stratum          string
+	SubjKind         string
+	SubjVariant      string // "" = drawn by makeToken
+	SubjDeclared     string // dimension name
+	ActorKind        string
+	ActorVariant     string
+	ActorDeclared    string // dimension name or "natural"
+	Requested        string
+	Policy           vstore.TEPolicy
+	Client           string
+	Cred             string
+	Verifier         bool
+	UISubjectByScope bool // the storage fills UserInfo.Subject of an exchanged ID token only when openid is among the decided scopes
+	NoRefreshVet     bool // the storage trusts the framework's refresh-token look-up instead of re-checking it
+	SigAlg           jose.SignatureAlgorithm
+	Scope            string // "\x00" = absent
+	Audience         []string
+	Resource         []string
+	Follow           string
 }
 
 var scopeDim = []string{"\x00", "openid", "openid profile", "openid email api", "api", "unknownscope", "openid unknownscope offline_access", "openid openid profile", "", "profile email phone address"}
@@ -143,6 +144,8 @@ var scenarios = []spec{
 	{Stratum: "scenario:null-payload-subject", SubjKind: "garbage", SubjVariant: "null-payload-signed", SubjDeclared: "access", ActorKind: "none", Requested: "access", Policy: vstore.TEAllow, Client: "web", Cred: "right", Scope: "openid"},
 	{Stratum: "scenario:storage-veto", SubjKind: "jwt", SubjDeclared: "access", ActorKind: "none", Requested: "access", Policy: vstore.TEVeto, Client: "web", Cred: "right", Scope: "openid"},
 	{Stratum: "scenario:wrong-secret", SubjKind: "jwt", SubjDeclared: "access", ActorKind: "none", Requested: "access", Policy: vstore.TEAllow, Client: "web", Cred: "wrong-secret", Scope: "openid"},
+	{Stratum: "scenario:impersonated-id_token-without-openid", SubjKind: "jwt", SubjDeclared: "access", ActorKind: "none", Requested: "id", Policy: vstore.TEImpersonate, Client: "web", Cred: "right", Scope: "profile email", UISubjectByScope: true},
+	{Stratum: "scenario:impersonated-jwt-access-token-without-openid", SubjKind: "refresh", SubjDeclared: "refresh", ActorKind: "opaque", ActorDeclared: "natural", Requested: "access", Policy: vstore.TEImpersonate, Client: "web2", Cred: "right", Scope: "api", UISubjectByScope: true},
 	{Stratum: "scenario:kill-subject-then-repeat", SubjKind: "jwt", SubjDeclared: "access", ActorKind: "none", Requested: "access", Policy: vstore.TEAllow, Client: "web2", Cred: "right", Scope: "openid", Follow: "kill-subject-repeat"},
 }
 
@@ -156,6 +159,7 @@ func drawSpec(r *rand.Rand, i int, matrixCases int) spec {
 	s.SigAlg = pick(r, sigAlgs...)
 	s.Verifier = r.IntN(3) == 0
 	s.NoRefreshVet = r.IntN(2) == 0
+	s.UISubjectByScope = r.IntN(2) == 0
 	s.Scope = pick(r, scopeDim...)
 	s.Audience = pick(r, audienceDim...)
 	s.Resource = pick(r, resourceDim...)
@@ -199,6 +203,21 @@ func drawSpec(r *rand.Rand, i int, matrixCases int) spec {
 	s.Policy = pick(r, vstore.TEAllow, vstore.TEImpersonate)
 	s.Client = pick(r, "web", "web", "web2", "web2", "svc", "post", "jwt")
 	s.Cred = pick(r, "right", "right", "right", "post-right", "basic-right")
+	if r.IntN(4) == 0 {
+		// impersonation with a decided scope list that lacks openid: the issued token must still carry the subject
+		// the storage decided (an ID token then gets no subject from the storage's userinfo)
+		s.Stratum = "near-valid/impersonate-without-openid"
+		s.Policy = vstore.TEImpersonate
+		s.Scope = pick(r, "profile", "email api", "api", "profile email", "email", "phone address api")
+		s.Requested = pick(r, "id", "id", "id", "access", "refresh")
+		s.UISubjectByScope = r.IntN(4) != 0
+		s.Client = pick(r, "web2", "web2", "web", "svc", "jwt", "post")
+		s.Cred = pick(r, "right", "right", "basic-right")
+		if r.IntN(2) == 0 {
+			s.Follow = pick(r, "repeat", "returned-as-subject", "returned-as-actor")
+		}
+		return s
+	}
 	if r.IntN(2) == 0 {
 		switch r.IntN(7) {
 		case 0:
@@ -609,6 +628,15 @@ func (cr *caseRun) do(e *exch) *opdrv.Tokens {
 	}
 	if policy == vstore.TEImpersonate {
 		run.Observed("success:impersonate:" + rn)
+		if !slices.Contains(x.Scopes, oidc.ScopeOpenID) {
+			run.Count("impersonated_without_openid|"+rn, fmt.Sprintf("issued=%s userinfo-subject-by-scope=%v", issued, cr.sp.UISubjectByScope))
+			if cr.sp.UISubjectByScope && issued == "id_token" {
+				run.Observed("impersonated-id_token-without-openid:" + rn)
+			}
+			if strings.Count(toks.Access, ".") == 2 && issued != "id_token" {
+				run.Observed("impersonated-jwt-access-token-without-openid:" + rn)
+			}
+		}
 	}
 	if e.Step != "primary" {
 		run.Observed("success:follow-up")
@@ -783,7 +811,10 @@ func (cr *caseRun) verifyIssued(e *exch, x expectation, toks *opdrv.Tokens, last
 		if err != nil {
 			return bad("issued:id_token:unverifiable", "the returned ID token does not verify under the provider key: "+err.Error())
 		}
-		if claims.Subject != x.Subject || claims.AuthorizedParty != x.Client || actSub(raw["act"]) != x.Actor {
+		if claims.Subject != x.Subject {
+			return bad("issued:id_token:subject-mismatch", fmt.Sprintf("ID token sub=%q, the storage decided %q (subject token stands for %q, decided scopes %v, storage sets userinfo subject only with openid: %v)", claims.Subject, x.Subject, e.Subj.Subject, x.Scopes, cr.sp.UISubjectByScope))
+		}
+		if claims.AuthorizedParty != x.Client || actSub(raw["act"]) != x.Actor {
 			return bad("issued:id_token:claims-mismatch", fmt.Sprintf("ID token sub=%q azp=%q act=%v, decided sub=%q client=%q actor=%q", claims.Subject, claims.AuthorizedParty, raw["act"], x.Subject, x.Client, x.Actor))
 		}
 		run.Count("returned_token_checks", "id-token-ok")
@@ -833,6 +864,7 @@ func runCase(run *ev.Run, idx, router, matrixCases int) {
 		return
 	}
 	w.Store.TENoRefreshVet = sp.NoRefreshVet
+	w.Store.TEUISubByScope = sp.UISubjectByScope
 	c := &caseCtx{w: w, router: router, r: r, prep: []prepOp{}}
 	cr := &caseRun{run: run, idx: idx, c: c, sp: sp}
 
@@ -974,6 +1006,7 @@ func main() {
 	for _, rn := range opdrv.RouterNames {
 		mandatory = append(mandatory, "success:"+rn+":access_token", "success:"+rn+":refresh_token", "success:"+rn+":id_token",
 			"success:actor:"+rn, "success:impersonate:"+rn, "refresh-usable:"+rn,
+			"impersonated-id_token-without-openid:"+rn, "impersonated-jwt-access-token-without-openid:"+rn,
 			"refused:storage-veto:"+rn, "refused:client-unauthenticated:"+rn, "refused:requested-type-unissuable:"+rn,
 			"refused:subject-dead:"+rn, "refused:subject-garbage:"+rn, "refused:subject-foreign:"+rn, "refused:subject-mistyped:"+rn,
 			"refused:subject-type-unsupported:"+rn, "refused:actor-dead:"+rn, "refused:actor-garbage:"+rn)
